@@ -149,8 +149,11 @@ def run_scenario(chk, sc, cfgseed, axes, serial, fields, wide=False):
     out = os.path.join(os.path.dirname(d), "slice2d")
     try:
         with shims.pool_shim(shims.Scheduler(default="random", rng=random.Random(cfgseed))), shims.poison([SENTINEL, -SENTINEL, float("nan")][cfgseed % 3]), core.quiet():
-            Mandoline(d, fields=list(fields), limit_level=sc["lim"], serial=serial, verbose=0).slice(
-                normal=cn, pos=pos, outfile=out, fformat="plotfile")
+            m = Mandoline(d, fields=list(fields), limit_level=sc["lim"], serial=serial, verbose=0)
+            if cfgseed % 3 == 0:
+                # an earlier slice on the same object (other normal, returned in memory)
+                m.slice(normal=axes[1], fformat="return")
+            m.slice(normal=cn, pos=pos, outfile=out, fformat="plotfile")
     except Exception as e:
         return "slice(fformat='plotfile') raised %s: %s" % (type(e).__name__, str(e)[:200])
     if alpha.tree_digest(d) != before:
